@@ -246,6 +246,11 @@ def o_c04(w, args):
     order = {tok(s): c.orderOf(s) for s in c.simplices()}
     ss = c.simplices()
     sample = ss if len(ss) <= 14 else rnd.sample(ss, 14)
+    if len(ss) > 14 and c.maxOrder() >= 0:
+        # deep complexes: the points (whose stars reach furthest up) and a top simplex are always looked at
+        pts_ = list(c.simplicesOfOrder(0)); top_ = list(c.simplicesOfOrder(c.maxOrder()))
+        seen_ = set(map(tok, sample))
+        sample = list(sample) + [x for x in (rnd.sample(pts_, min(3, len(pts_))) + top_[:1]) if tok(x) not in seen_]
     def fmt_check(what, s, got, want, rev, excl):
         gt = [tok(x) for x in got]
         for t in gt:
